@@ -22,7 +22,7 @@ import (
 
 var yieldPoints = []string{
 	"fc.update.added", "fc.send.loaded", "fc.send.beforeWait", "fc.send.beforeCAS", "fc.send.reserved", "fc.dequeue.beforeCredit",
-	"rev.open.created", "rev.open.betweenAdds", "rev.unregister.between", "revsrv.serve.beforeAdd", "revsrv.stop.beforeCloseSend",
+	"rev.open.created", "rev.open.betweenAdds", "rev.open.beforeKeyAdd", "rev.unregister.between", "revsrv.serve.beforeAdd", "revsrv.stop.beforeCloseSend",
 	"carrier.send.beforeLock", "client.newStream.allocated", "client.newStream.sent", "client.recv.gotFrame", "client.close.afterTearDown",
 	"client.read.beforeDequeue", "client.cancel.beforeReceiverCancel", "client.finish.afterDone", "client.finish.betweenPublish",
 	"server.recv.gotFrame", "server.create.begin", "server.read.beforeDequeue", "server.read.dequeueFalse", "server.watcher.beforeCancel",
@@ -162,6 +162,9 @@ func famParkExplore(w *World, c *Case, rng *rand.Rand) {
 			subj.Timeout = time.Duration(1+rng.Intn(4)) * time.Millisecond
 		case "handler-deadline":
 			subj.GrpcTimeout = fmt.Sprintf("%dm", 1+rng.Intn(4))
+		}
+		if scen == "close" {
+			by.NeverCancel, subj.NeverCancel = rng.Intn(2) == 0, rng.Intn(2) == 0
 		}
 		w.Env.StartRPC(w.RootCtx, w.Ch, by)
 		w.Env.StartRPC(w.RootCtx, w.Ch, subj)
